@@ -160,7 +160,10 @@ Record jinput := { ji_univ : list N; ji_ops : list jaop }.
 (* result (0 ok/true, 1 false, 2 dangling, 3 other error (reopen: Close failed), 4 read-only error),
    Root() of the writer (probe: of the second handle), chunks of the universe the writer Has,
    probe: the second handle is read-only *)
-Record jsobs := JK { jo_res : N; jo_croot : N; jo_has : list N; jo_ro : bool }.
+Record jsobs := JK { jo_res : N; jo_croot : N; jo_has : list N; jo_ro : bool;
+                     jo_phas : list N }.   (* probe only: chunks the second handle Has — checked by the oracle,
+                                             not compared with the model (unacknowledged chunks may still sit in the
+                                             writer's buffer) *)
 
 Definition jres_code (st : jstep) (r : result) : N :=
   match st, r with
@@ -193,7 +196,8 @@ Fixpoint jrun (univ : list N) (s : jstate) (ops : list jaop) : list jsobs :=
     {| jo_res := jres_code st r;
        jo_croot := match op with JAProbe => j_root s' | _ => fst (j_up s') end;
        jo_has := filter (jwriter_has s') univ;
-       jo_ro := match op with JAProbe => true | _ => false end |} :: jrun univ s' rest
+       jo_ro := match op with JAProbe => true | _ => false end;
+       jo_phas := match op with JAProbe => filter (jfresh_has s') univ | _ => [] end |} :: jrun univ s' rest
   end.
 
 Definition jmodel_obs (inp : jinput) : list jsobs := jrun (ji_univ inp) jinit (ji_ops inp).
@@ -214,7 +218,7 @@ Fixpoint jobs_eqb (a b : list jsobs) : bool :=
    find it equal to last and leave it equal to cur; nothing else moves it; the
    writer can always read every acknowledged chunk; a reopen sees exactly the
    register and every acknowledged chunk; a second handle is read-only, sees
-   the register and cannot commit. *)
+   the register and every acknowledged chunk, and cannot commit. *)
 Record jostate := { jos_reg : N; jos_self : N; jos_puts : list N; jos_acked : list N }.
 
 Definition joracle_step (st : jostate) (op : jaop) (o : jsobs) : bool * jostate :=
@@ -235,7 +239,8 @@ Definition joracle_step (st : jostate) (op : jaop) (o : jsobs) : bool * jostate 
     | JAReopen =>
       (jo_croot o =? jos_reg st,
        {| jos_reg := jos_reg st; jos_self := jo_croot o; jos_puts := []; jos_acked := jos_acked st |})
-    | JAProbe => (jo_ro o && negb (jo_res o =? 0) && (jo_croot o =? jos_reg st), st)
+    | JAProbe => (jo_ro o && negb (jo_res o =? 0) && (jo_croot o =? jos_reg st)
+                  && forallb (fun x => mem_n x (jo_phas o)) (jos_acked st), st)
     end in
   (ok && forallb (fun x => mem_n x (jo_has o)) (jos_acked st'), st').
 
